@@ -15,7 +15,7 @@ impl InstructionProperties for CfgNode {
         self.node().is_ureturn()
     }
 
-    fn stores_to_memory(&self) -> Option<(Register, (Register, Imm))> {
+    fn stores_to_memory(&self) -> Option<(Register, (Register, Imm), u8)> {
         self.node().stores_to_memory()
     }
 
